@@ -222,6 +222,8 @@ def make_asyncio_module(b):
     def as_completed(it, aws, **k):
         # yields each awaitable exactly once, in an unspecified order: contracts may not
         # depend on the order; we keep list order.
+        if hasattr(aws, "py_for"):
+            return aws
         return list(it.iterate(aws))
 
     m.ns["as_completed"] = Builtin("asyncio.as_completed", as_completed, True)
